@@ -95,6 +95,11 @@ def all_collections(root):
         yield from all_collections(sc)
 
 
+def stored_dicts(c):
+    """the plain dicts a collection object holds (its stored configuration, whatever the attribute is called)"""
+    return {k: v for k, v in vars(c).items() if type(v) is dict}
+
+
 def mutate(d):
     """change the returned mapping everywhere a mapping can be changed"""
     for k in list(d.keys()):
@@ -158,17 +163,19 @@ def oracle_c17(spec, root, b, names, hist=None):
             fresh_done += 1
             stored = {}
             for c in all_collections(root):
-                containers(c._configuration, stored)
+                for v in stored_dicts(c).values():
+                    containers(v, stored)
             shared = [k for k in containers(got, {}) if k in stored]
             if shared:
                 fails.append(("aliased", "configuration(%r) shares %d dict/list object(s) with a stored configuration" % (n, len(shared)), [n]))
-            snap = [copy.deepcopy(c._configuration) for c in all_collections(root)]
+            snap = [copy.deepcopy(stored_dicts(c)) for c in all_collections(root)]
             mutate(got)
-            now = [c._configuration for c in all_collections(root)]
+            now = [stored_dicts(c) for c in all_collections(root)]
             if now != snap:
                 fails.append(("mutation-leaks", "changing the mapping returned by configuration(%r) changed a stored configuration" % n, [n]))
                 for c, s in zip(all_collections(root), snap):  # repair for the following checks
-                    c._configuration = s
+                    for k, v in s.items():
+                        setattr(c, k, v)
             again = root.configuration(n)
             if diff_path(again, exp) is not None:
                 fails.append(("mutation-leaks", "configuration(%r) differs after the previous result was changed" % n, [n]))
@@ -207,9 +214,12 @@ def replay(case):
         spec, root, b = base.build_case(case["tree"])
     except ValueError as e:
         return True, "the API refuses this tree (%s)" % e
-    fails = oracle_c17(spec, root, b, case["names"])
+    try:
+        fails = oracle_c17(spec, root, b, case["names"])
+    except Exception as e:
+        return False, "unexpected-exception: observing the tree raised %s: %s" % (type(e).__name__, e)
     kind = case.get("check")
-    if kind and any(f[0] == kind for f in fails):
+    if kind:  # a replay file names the kind of failure it recorded: only that kind counts
         fails = [f for f in fails if f[0] == kind]
     if fails:
         return False, "; ".join("%s: %s" % (k, w) for k, w, _ in fails[:3])
